@@ -80,11 +80,12 @@ CLAIMS = {
         note=BASE_NOTE),
     "C10": dict(
         text="Theorems: iteration = one slice [finger, footer) per held chunk, newest first, inside its chunk; every region in a used part "
-             "(every live non-empty block) lies in exactly one slice; uniform allocations (align A ≥ MIN_ALIGN, A ≤ 16, size multiple of A) "
-             "are placed with no padding below the finger, and the first object of a fresh chunk ends at its footer." + CORR +
-             " Partial: the history-level 'slices = concatenation of live objects' invariant is checked by the uniform-tiling oracle on "
-             "the real crate (incl. failed initialisers / slice fills in between), not yet as a Lean invariant.",
-        note=BASE_NOTE),
+             "(every live non-empty block) lies in exactly one slice; and for every uniform history (all allocations of any flavour with the "
+             "same alignment A, MIN_ALIGN ≤ A ≤ 16, sizes multiples of A, across chunk boundaries, with resets, limit changes, failed fallible "
+             "initialisers and failed fallible slice fills in between) the sizes of the live objects in each chunk's used part add up to "
+             "exactly its length (uniform_history_tiles) — with C01's containment and disjointness: the slices are exactly the objects, "
+             "nothing before, between or after." + CORR + " uniform-tiling oracle on the real crate.",
+        note=BASE_NOTE + " In the model both iterators are the same walk; that the two Rust iterators agree is an oracle."),
     "C18": dict(
         text="Theorems (arena part): an arena built with capacity c serves any request list with sizes multiples of MIN_ALIGN, aligns ≤ "
              "MIN_ALIGN and total ≤ c from its first chunk alone; a request of exactly chunk_capacity() bytes is served by the fast path; "
